@@ -251,6 +251,11 @@ impl User {
     }
 
     fn validate(&self) -> Result<(), Error> {
+        if self.pool_size == 0 {
+            error!("pool_size of user {} must be greater than zero", self.username);
+            return Err(Error::BadConfig);
+        }
+
         if let Some(min_pool_size) = self.min_pool_size {
             if min_pool_size > self.pool_size {
                 error!(
